@@ -8,6 +8,8 @@ FUNCTIONS = [('typing', 'electrical_signal.__call__'), ('typing', 'electrical_si
 BOUNDS = {'lengths': 'N in {1,2,3,4,5,6,8,10,12} (quick: {1,2,3,4,5,8}); exact twiddle factors in Q(sqrt2, sqrt3, sqrt5, sin36, sin72)',
           'values': 'every complex sample of signal and noise symbolic; one and two polarisations; gv configured through the real gv(sps=.., R=..) / '
                     'gv(fs=.., R=..) with symbolic R (fs = R*sps, sps in 1..4)',
+          'sampling rate not a multiple of the slot rate': 'gv(R, fs) and gv(fs) with fs/R = 2.6 (thorough: 2.6, 3.4, 1.25, 7.7), R = 1e9 and symbolic R; '
+                                                           'w(), fs(), dt(), t() of signals of length 3 (thorough 2, 3, 4, 7) against the fs given',
           'axis with a gv grid in force': 'w() / t() / power() of signals of length 3..15 (thorough ..25) while gv(sps, R, N) holds its own grid of '
                                           'N*sps points, equal to the signal length (odd and even) or not'}
 OUTSIDE = ['other lengths (7, 9, 11, ... need twiddle factors outside the exact field)', 'floating-point rounding of the FFT']
